@@ -284,18 +284,40 @@ def const_str(h, name, what):
 STR = r'(?:r#*)?"(?:[^"\\]|\\.)*"#*'
 
 
-def attr_char_literals(h, body, what):
+def attr_char_const(h, src, name, what):
+    """the fields of `const NAME: AttrChar = AttrChar { … };` (the base of a struct-update literal `..NAME`)"""
+    m = re.search(r"\bconst\s+" + re.escape(name) + r"\s*:\s*AttrChar\s*=\s*AttrChar\s*\{([^{}]*)\}\s*;", src)
+    if not m:
+        h.fail(f"expansion: {what}: base of a struct-update literal is not a constant `const {name}: AttrChar = AttrChar {{…}};`")
+    fields = {}
+    for part in m.group(1).split(","):
+        part = part.strip()
+        if not part:
+            continue
+        if ":" not in part or part.startswith(".."):
+            h.fail(f"expansion: {what}: field of const {name} of an unknown shape: {part!r}")
+        k, v = part.split(":", 1)
+        fields[k.strip()] = v.strip()
+    return fields
+
+
+def attr_char_literals(h, body, what, src=""):
     """every `AttrChar { value: …, origin: Origin::X, is_quoted: b, is_quoting: b }` of body (fields in any order,
-    `value` possibly in shorthand form) as dicts"""
+    `value` possibly in shorthand form, missing fields taken from a `..CONST` base) as dicts"""
     out = []
     for m in re.finditer(r"\bAttrChar\s*\{([^{}]*)\}", body):
         fields = {}
+        base = {}
         for part in m.group(1).split(","):
             part = part.strip()
             if not part:
                 continue
             if part.startswith(".."):
-                h.fail(f"expansion: {what}: AttrChar literal with a base expression: {part!r}")
+                b = part[2:].strip()
+                if not re.fullmatch(r"(?:\w+::)*[A-Z][A-Z0-9_]*", b):
+                    h.fail(f"expansion: {what}: AttrChar literal with a base expression that is not a constant: {part!r}")
+                base = attr_char_const(h, src, b.split("::")[-1], what)
+                continue
             if ":" in part and not re.fullmatch(CHAR, part):
                 k, v = part.split(":", 1)
                 fields[k.strip()] = v.strip()
@@ -303,6 +325,7 @@ def attr_char_literals(h, body, what):
                 fields[part] = part
             else:
                 h.fail(f"expansion: {what}: AttrChar field of an unknown shape: {part!r}")
+        fields = {**base, **fields}
         if set(fields) != {"value", "origin", "is_quoted", "is_quoting"}:
             h.fail(f"expansion: {what}: AttrChar literal with fields {sorted(fields)}")
         o = re.fullmatch(r"(?:\w+::)*(Literal|HardExpansion|SoftExpansion)", fields["origin"])
@@ -347,21 +370,195 @@ def tilde_constants(h):
         h.fail("expansion: tilde.rs expand_body: `format!(\"<prefix>{name}\")` for an unknown name not found")
     unknown = rust_string(h, '"' + m.group(1) + '"', "tilde unknown-name prefix")
     fin = fn_body(h, src, "finish", "tilde.rs finish")
-    m = re.search(r"\bfollowed_by_slash\b[^{;]*?\bstrip_suffix\s*\(\s*(" + CHAR + r"|" + STR + r")\s*\)", fin)
-    if not m:
-        h.fail("expansion: tilde.rs finish: `followed_by_slash && … strip_suffix('/')` not found")
-    lit = m.group(1)
-    slash = h.rust_char(lit[1:-1]) if lit.startswith("'") else rust_string(h, lit, "tilde slash")
-    if len(slash) != 1:
-        h.fail(f"expansion: tilde.rs finish: the stripped suffix is not one character: {slash!r}")
+    LIT = r"(" + CHAR + r"|" + STR + r")"
+    strips = re.findall(r"\bstrip_suffix\s*\(\s*" + LIT + r"\s*\)", fin)
+    sig = re.search(r"\bfn\s+finish\s*\(([^)]*)\)", src)
+    if len(strips) > 1:
+        h.fail("expansion: tilde.rs finish: more than one strip_suffix")
+    if not strips:
+        # nothing is stripped: fine only if the flag plays no other part either
+        if re.search(r"\bfollowed_by_slash\b", fin):
+            h.fail("expansion: tilde.rs finish: `followed_by_slash` is used but no strip_suffix is found")
+        slash = None
+    else:
+        shapes = [
+            # if followed_by_slash && let Some(x) = chars.strip_suffix('/') { … }
+            r"\bif\s+followed_by_slash\s*&&\s*let\s+Some\s*\(\s*\w+\s*\)\s*=\s*\w+\s*\.\s*strip_suffix\s*\(\s*" + LIT + r"\s*\)",
+            # if let Some(x) = chars.strip_suffix('/') && followed_by_slash { … }
+            r"\bif\s+let\s+Some\s*\(\s*\w+\s*\)\s*=\s*\w+\s*\.\s*strip_suffix\s*\(\s*" + LIT + r"\s*\)\s*&&\s*followed_by_slash\b",
+            # if followed_by_slash { if let Some(x) = chars.strip_suffix('/') { … } }
+            r"\bif\s+followed_by_slash\s*\{\s*if\s+let\s+Some\s*\(\s*\w+\s*\)\s*=\s*\w+\s*\.\s*strip_suffix\s*\(\s*" + LIT + r"\s*\)",
+            # match chars.strip_suffix('/') { Some(x) if followed_by_slash => x, _ => chars }
+            r"\bmatch\s+(\w+)\s*\.\s*strip_suffix\s*\(\s*" + LIT + r"\s*\)\s*\{\s*Some\s*\(\s*(\w+)\s*\)\s*if\s+followed_by_slash\s*=>\s*\3\s*,\s*(?:_|None)\s*=>\s*\1\s*,?\s*\}",
+        ]
+        if not any(re.search(sh, fin) for sh in shapes):
+            h.fail("expansion: tilde.rs finish: the strip_suffix is not guarded by `followed_by_slash` in a shape that is understood "
+                   "(`if followed_by_slash && let Some(x) = s.strip_suffix(c)`, the nested `if`s, or "
+                   "`match s.strip_suffix(c) { Some(x) if followed_by_slash => x, _ => s }`)")
+        lit = strips[0]
+        slash = h.rust_char(lit[1:-1]) if lit.startswith("'") else rust_string(h, lit, "tilde slash")
+        if len(slash) != 1:
+            h.fail(f"expansion: tilde.rs finish: the stripped suffix is not one character: {slash!r}")
+    del sig
     if not re.search(r"\.\s*is_empty\s*\(\s*\)", fin):
         h.fail("expansion: tilde.rs finish: the emptiness test before the dummy quote not found")
-    lits = attr_char_literals(h, fin, "tilde.rs finish")
+    lits = attr_char_literals(h, fin, "tilde.rs finish", src)
     mapped = [a for a in lits if a["value"] is None]
     dummy = [a for a in lits if a["value"] is not None]
     if len(mapped) != 1 or len(dummy) != 1:
         h.fail(f"expansion: tilde.rs finish: expected one mapped and one literal AttrChar, found {len(mapped)} and {len(dummy)}")
     return home, fallback, unknown, slash, mapped[0], dummy[0]
+
+
+def split_top(text, sep):
+    """split at `sep` outside parentheses / brackets / braces"""
+    parts, depth, cur = [], 0, []
+    for ch in text:
+        if ch in "([{":
+            depth += 1
+        elif ch in ")]}":
+            depth -= 1
+        if ch == sep and depth == 0:
+            parts.append("".join(cur))
+            cur = []
+        else:
+            cur.append(ch)
+    parts.append("".join(cur))
+    return [x.strip() for x in parts]
+
+
+def value_condition_table(h):
+    """param/switch.rs `ValueCondition::with::inner` evaluated on every (SwitchCondition, Option<Vacancy>): the function is
+    a `match (cond, vacancy)` over tuple patterns (wildcards, bindings, `Enum::Variant`, `Some(…)`, `None`, alternatives
+    with `|` inside or between the tuples), possibly preceded by `let Some(v) = vacancy else { return R; };`; results are
+    `ValueCondition::Occupied` / `ValueCondition::Vacant(<binding or Vacancy::X>)`, bare or in braces.  The table does not
+    depend on how the arms are grouped or ordered beyond first-match semantics."""
+    what = "switch.rs ValueCondition::with"
+    src = strip_comments(h.read("yash-semantics/src/expansion/initial/param/switch.rs")).split("#[cfg(test)]")[0]
+    vac_enum = h.item_body(src, r"\bpub\s+enum\s+Vacancy\b", "switch.rs enum Vacancy")
+    vacs = re.findall(r"^\s*([A-Z]\w*)\s*,", vac_enum, re.M)
+    syn = strip_comments(h.read("yash-syntax/src/syntax.rs"))
+    conds = re.findall(r"^\s*([A-Z]\w*)\s*,", h.item_body(syn, r"\bpub\s+enum\s+SwitchCondition\b", "syntax.rs enum SwitchCondition"), re.M)
+    if len(vacs) < 2 or len(conds) < 2:
+        h.fail(f"expansion: {what}: enum variants not found")
+    ibody = h.item_body(src, r"\bimpl\s+ValueCondition\b", what)
+    body = fn_body(h, ibody, "inner", what + "::inner")
+    sig = re.search(r"\bfn\s+inner\s*\(\s*(\w+)\s*:\s*SwitchCondition\s*,\s*(\w+)\s*:\s*Option\s*<\s*Vacancy\s*>\s*\)", ibody)
+    if not sig:
+        h.fail(f"expansion: {what}: signature `fn inner(cond: SwitchCondition, vacancy: Option<Vacancy>)` not found")
+    cname, vname = sig.group(1), sig.group(2)
+
+    def result(text, binding):
+        t = text.strip().rstrip(",").strip()
+        m = re.fullmatch(r"\{\s*(.*?)\s*;?\s*\}", t, re.S)
+        if m:
+            t = m.group(1).strip()
+        t = re.sub(r"^return\s+", "", t).rstrip(";").strip()
+        if re.fullmatch(r"(?:\w+::)*Occupied", t):
+            return "Occupied"
+        m = re.fullmatch(r"(?:\w+::)*Vacant\s*\(\s*(.*?)\s*\)", t)
+        if not m:
+            h.fail(f"expansion: {what}: result of an unknown shape: {t!r}")
+        e = m.group(1)
+        mv = re.fullmatch(r"(?:\w+::)*Vacancy::(\w+)", e)
+        if mv:
+            return "Vacant:" + mv.group(1)
+        if re.fullmatch(r"[a-z_]\w*", e):
+            if binding.get(e) is None:
+                h.fail(f"expansion: {what}: `Vacant({e})` where {e} is not bound to a vacancy")
+            return "Vacant:" + binding[e]
+        h.fail(f"expansion: {what}: argument of Vacant of an unknown shape: {e!r}")
+
+    let_else = re.search(r"\blet\s+Some\s*\(\s*(\w+)\s*\)\s*=\s*" + vname + r"\s*else\s*\{(.*?)\}\s*;", body, re.S)
+    unwrapped = None
+    if let_else:
+        unwrapped = let_else.group(1)
+        body_rest = body[let_else.end():]
+    else:
+        body_rest = body
+    mm = re.search(r"\bmatch\s*\(\s*(\w+)\s*,\s*(\w+)\s*\)\s*", body_rest)
+    if not mm or mm.group(1) != cname:
+        h.fail(f"expansion: {what}: `match ({cname}, …)` not found")
+    second = mm.group(2)
+    second_is_option = not (unwrapped is not None and second == unwrapped)
+    if second_is_option and second != vname:
+        h.fail(f"expansion: {what}: the second scrutinee {second!r} is neither the parameter nor the let-else binding")
+    arms = match_arms(h, body_rest, r"\(\s*\w+\s*,\s*\w+\s*\)", what)
+
+    def match_vac(pat, v, binding):
+        """pattern over a Vacancy value"""
+        for alt in split_top(pat, "|"):
+            if alt == "_":
+                return True
+            mv = re.fullmatch(r"(?:\w+::)*Vacancy::(\w+)", alt)
+            if mv:
+                if mv.group(1) not in vacs:
+                    h.fail(f"expansion: {what}: unknown vacancy {alt!r}")
+                if mv.group(1) == v:
+                    return True
+                continue
+            if re.fullmatch(r"[a-z_]\w*", alt):
+                binding[alt] = v
+                return True
+            h.fail(f"expansion: {what}: vacancy pattern of an unknown shape: {alt!r}")
+        return False
+
+    def match_second(pat, v, binding):
+        if not second_is_option:
+            return match_vac(pat, v, binding)
+        for alt in split_top(pat, "|"):
+            if alt == "_":
+                return True
+            if alt == "None":
+                if v is None:
+                    return True
+                continue
+            ms = re.fullmatch(r"Some\s*\((.*)\)", alt, re.S)
+            if ms:
+                if v is not None and match_vac(ms.group(1).strip(), v, binding):
+                    return True
+                continue
+            if re.fullmatch(r"[a-z_]\w*", alt):
+                return True
+            h.fail(f"expansion: {what}: option pattern of an unknown shape: {alt!r}")
+        return False
+
+    def match_cond(pat, c):
+        for alt in split_top(pat, "|"):
+            if alt == "_" or re.fullmatch(r"[a-z_]\w*", alt):
+                return True
+            mc = re.fullmatch(r"(?:\w+::)*SwitchCondition::(\w+)", alt)
+            if not mc or mc.group(1) not in conds:
+                h.fail(f"expansion: {what}: condition pattern of an unknown shape: {alt!r}")
+            if mc.group(1) == c:
+                return True
+        return False
+
+    rows = []
+    for c in conds:
+        for v in [None] + vacs:
+            if v is None and let_else:
+                rows.append((c, "None", result(let_else.group(2), {})))
+                continue
+            res = None
+            for pat, r in arms:
+                for tup in split_top(pat, "|"):
+                    mt = re.fullmatch(r"\((.*)\)", tup, re.S)
+                    if not mt:
+                        h.fail(f"expansion: {what}: arm pattern is not a tuple: {tup!r}")
+                    parts = split_top(mt.group(1).strip().rstrip(","), ",")
+                    if len(parts) != 2:
+                        h.fail(f"expansion: {what}: tuple pattern without two components: {tup!r}")
+                    binding = {unwrapped: v} if unwrapped else {}
+                    if match_cond(parts[0], c) and match_second(parts[1], v, binding):
+                        res = result(r, binding)
+                        break
+                if res is not None:
+                    break
+            if res is None:
+                h.fail(f"expansion: {what}: no arm matches ({c}, {v})")
+            rows.append((c, v or "None", res))
+    return rows
 
 
 def expansion_tables(h):
@@ -383,6 +580,7 @@ def expansion_tables(h):
     trim = char_table(h, fn_body(h, mod, "trim", "modifier.rs trim"), "symbol", "TrimSide", "modifier.rs trim")
     ssw, str_ = suffix_arms(h, mod)
     t_home, t_fallback, t_unknown, t_slash, t_char, t_dummy = tilde_constants(h)
+    vc_rows = value_condition_table(h)
     if sorted(ssw) != sorted(c for c, _ in switch) or sorted(str_) != sorted(c for c, _ in trim):
         h.fail("expansion: suffix_modifier dispatches characters that switch / trim do not handle (or the reverse)")
     # sets and symbol tables are emitted sorted by code point: the order of match arms / of the alternatives of a
@@ -422,14 +620,17 @@ def expansion_tables(h):
         f"def tildeHomeFallback : List Char := {chars(t_fallback)}\n\n"
         f"/-- … the prefix kept in front of a login name `getpwnam_dir` does not know: {t_unknown!r} -/\n"
         f"def tildeUnknownPrefix : List Char := {chars(t_unknown)}\n\n"
-        f"/-- `tilde::finish`: the suffix stripped when a slash follows: {t_slash!r} -/\n"
-        f"def tildeSlash : Char := {L(t_slash)}\n\n"
+        f"/-- `tilde::finish`: the suffix stripped when a slash follows (`none`: nothing is stripped): {t_slash!r} -/\n"
+        f"def tildeSlash : Option Char := {'none' if t_slash is None else 'some (' + L(t_slash) + ')'}\n\n"
         "/-- … origin / is_quoted / is_quoting of the characters of the result -/\n"
         f"def tildeCharAttr : String × Bool × Bool := ({h.lean_str(t_char['origin'])}, "
         f"{'true' if t_char['quoted'] else 'false'}, {'true' if t_char['quoting'] else 'false'})\n\n"
         f"/-- … the dummy character an empty result is replaced by: value {t_dummy['value']!r}, origin, is_quoted, is_quoting -/\n"
         f"def tildeDummy : Char × String × Bool × Bool := ({L(t_dummy['value'])}, {h.lean_str(t_dummy['origin'])}, "
-        f"{'true' if t_dummy['quoted'] else 'false'}, {'true' if t_dummy['quoting'] else 'false'})\n"
+        f"{'true' if t_dummy['quoted'] else 'false'}, {'true' if t_dummy['quoting'] else 'false'})\n\n"
+        "/-- `ValueCondition::with` evaluated on every (SwitchCondition, Option<Vacancy>): Occupied or Vacant:<vacancy> -/\n"
+        "def valueConditionTable : List (String × String × String) := ["
+        + ", ".join(f"({h.lean_str(c)}, {h.lean_str(v)}, {h.lean_str(r)})" for c, v, r in vc_rows) + "]\n"
     )
     h.write("ExpansionTables", body)
 
